@@ -235,10 +235,16 @@ func (c *SizedLRU) verifRemoved(key string) {
 	c.verifEmit(&VerifEvent{Ev: "Remove", Key: key}, true)
 }
 
+// verifQueued is called at the start of appendEvictionToQueue, i.e. before
+// the entry is handed to the remover, while the caller holds the lock.
 func (c *SizedLRU) verifQueued(e *entry) {
 	verifMu.Lock()
 	c.verifSt().pending++
 	verifMu.Unlock()
+	if !verifOn.Load() {
+		return
+	}
+	c.verifEmit(&VerifEvent{Ev: "Queue", Key: e.key, Size: e.value.size, Dsz: e.value.sizeOnDisk, Rnd: e.value.random, Legacy: e.value.legacy}, false)
 }
 
 func (c *SizedLRU) verifEvict(ev string, kv *entry) {
